@@ -540,6 +540,7 @@ def main():
                'sub-interval additivity lemma (C10) for the skin partition')
     run.outside = ['that a stiffener contribution is the Hessian of its own beam energy (PSD follows from that, not decided here)', 'more than 4 stiffeners / 4 cuts']
     res = pmap(kprop.job, [(__name__, c) for c in cf])
+    res = kprop.explore_loci(__name__, res, run)      # second pass: the equality loci the executed code branched on
     for r in res:
         if 'cfg' in r:
             r['cfg'].setdefault('m', 1)
